@@ -2,7 +2,7 @@
 #include "slu_mt_@p@defs.h"
 /* inputs: headers of L (SCP) and U (NCP) of order up to NMAX; only the three end-pointer arrays are wired (the routine must read nothing else) */
 SuperMatrix in_L, in_U; SCPformat in_Lstore; NCPformat in_Ustore; superlu_memusage_t in_mu; int_t *in_nzend, *in_rowend, *in_colend;
-int_t in_P, in_panel_size; int_t g_ret;
+int_t in_P, in_panel_size; int_t g_ret, g_nz0, g_ri0, g_ce0;
 SuperMatrix g_L0, g_U0; SCPformat g_Ls0; NCPformat g_Us0;
 int xerbla_(char *s, int *i) { __CPROVER_assert(0, "sp_ienv is called with a legal ispec"); return 0; }
 void h_query(void) {
@@ -16,10 +16,19 @@ void h_query(void) {
   in_Lstore.nzval = 0; in_Lstore.nzval_colbeg = 0; in_Lstore.rowind = 0; in_Lstore.rowind_colbeg = 0; in_Lstore.col_to_sup = 0; in_Lstore.sup_to_colbeg = 0; in_Lstore.sup_to_colend = 0;
   in_Ustore.nzval = 0; in_Ustore.rowind = 0; in_Ustore.colbeg = 0;
   g_L0 = in_L; g_U0 = in_U; g_Ls0 = in_Lstore; g_Us0 = in_Ustore;
+  if (in_L.ncol >= 1 && in_L.ncol <= NMAX) { g_nz0 = in_nzend[in_L.ncol - 1]; g_ri0 = in_rowend[in_L.ncol - 1]; g_ce0 = in_colend[in_L.ncol - 1]; }
   g_ret = superlu_@p@QuerySpace(in_P, &in_L, &in_U, in_panel_size, &in_mu);
+  /* L and U are not modified: headers, stores and the three entries the routine reads (the rest of the frame is the assigns clause) */
+  __CPROVER_assert(in_L.Stype == g_L0.Stype && in_L.Dtype == g_L0.Dtype && in_L.Mtype == g_L0.Mtype && in_L.nrow == g_L0.nrow && in_L.ncol == g_L0.ncol && in_L.Store == g_L0.Store
+                && in_U.Stype == g_U0.Stype && in_U.Dtype == g_U0.Dtype && in_U.Mtype == g_U0.Mtype && in_U.nrow == g_U0.nrow && in_U.ncol == g_U0.ncol && in_U.Store == g_U0.Store, "L and U headers unchanged");
+  __CPROVER_assert(in_Lstore.nnz == g_Ls0.nnz && in_Lstore.nsuper == g_Ls0.nsuper && in_Lstore.nzval == g_Ls0.nzval && in_Lstore.nzval_colbeg == g_Ls0.nzval_colbeg && in_Lstore.nzval_colend == g_Ls0.nzval_colend
+                && in_Lstore.rowind == g_Ls0.rowind && in_Lstore.rowind_colbeg == g_Ls0.rowind_colbeg && in_Lstore.rowind_colend == g_Ls0.rowind_colend && in_Lstore.col_to_sup == g_Ls0.col_to_sup
+                && in_Lstore.sup_to_colbeg == g_Ls0.sup_to_colbeg && in_Lstore.sup_to_colend == g_Ls0.sup_to_colend, "L store (SCP) unchanged");
+  __CPROVER_assert(in_Ustore.nnz == g_Us0.nnz && in_Ustore.nzval == g_Us0.nzval && in_Ustore.rowind == g_Us0.rowind && in_Ustore.colbeg == g_Us0.colbeg && in_Ustore.colend == g_Us0.colend, "U store (NCP) unchanged");
+  __CPROVER_assert(in_nzend[in_L.ncol - 1] == g_nz0 && in_rowend[in_L.ncol - 1] == g_ri0 && in_colend[in_L.ncol - 1] == g_ce0, "end pointers of the last column unchanged");
   __CPROVER_assert(0, "canary: QuerySpace returns");
   if (in_L.ncol == 1) __CPROVER_assert(0, "canary: order 1");
-  if (in_L.ncol > 30000000 && in_P == 1) __CPROVER_assert(0, "canary: order above 3e7");
+  if (in_L.ncol > 15000000 && in_P == 1) __CPROVER_assert(0, "canary: order above 1.5e7");   /* one thread, panel 1: 120 n <= 2^31 - 2^12 allows n <= 17.89e6 */
   if (in_P == PMAX && in_panel_size == 8 && in_L.ncol >= 40000) __CPROVER_assert(0, "canary: 64 threads, order 40000");
   if (in_mu.expansions == 0) __CPROVER_assert(0, "canary: no expansion");
 }
